@@ -83,6 +83,15 @@ type Case struct {
 	Ops         []Op
 }
 
+func (c *Case) isJSON(b []byte) bool {
+	for _, p := range c.Pool {
+		if bytes.Equal(p.Bytes, b) {
+			return p.Subj != "N"
+		}
+	}
+	return false
+}
+
 func bit(b bool) string {
 	if b {
 		return "1"
@@ -537,6 +546,9 @@ func (t *truth) expect(c *Case, o Op) string {
 			}
 			if !accurateFor(o.D, m.b) || m.mt != o.D.MT {
 				return "?"
+			}
+			if indexable(m.mt) && !c.isJSON(m.b) {
+				return "?" // the client decodes the manifest before deleting it (referrers bookkeeping)
 			}
 			delete(t.mans, o.D.DG)
 			for k, v := range t.tags {
@@ -1227,7 +1239,7 @@ func main() {
 		return
 	}
 	r := run.Rand
-	nh := run.Scale(1200, 40000)
+	nh := run.Scale(2500, 40000)
 	for i := 0; i < nh; i++ {
 		c := genCase(r.Fork(), 6+r.Intn(run.Scale(16, 30)))
 		n := execHistory(run.NewID(), c)
